@@ -819,6 +819,19 @@ func (e *Env) call(n ECall) Val {
 			return boolVal(eq(v.Ref, "0"))
 		}
 		return boolVal(eq(v.S, "0"))
+	case "feq", "fsub":
+		// feq(a, b): the IEEE comparison a == b of the Go code (false whenever a NaN is involved), as opposed to the
+		// spec's ==, which is identity of values. fsub(a, b): the float subtraction of the Go code.
+		a, b := e.tr(n.Args[0]), e.tr(n.Args[1])
+		if !isFloat(a.T) {
+			e.fail("%s(): float operands expected", n.Fn)
+		}
+		b = e.coerce(b, a.T)
+		pfx, sort := fltPfx(a.T)
+		if n.Fn == "feq" {
+			return boolVal(app(x.decls.Fun(pfx+".eq", []string{sort, sort}, "Bool"), a.S, b.S))
+		}
+		return Val{T: a.T, K: KScalar, S: app(x.decls.Fun(pfx+".sub", []string{sort, sort}, sort), a.S, b.S)}
 	case "int":
 		v := e.tr(n.Args[0])
 		if x.mode == ModeBV {
